@@ -259,6 +259,9 @@ func replay(t *testing.T, p *Prop, path, tier string) {
 		defer func() {
 			b, _ := json.Marshal(tape.Data())
 			os.WriteFile(out, b, 0o644)
+			for _, l := range lastDesc {
+				fmt.Println("CASEX", l)
+			}
 		}()
 	}
 	res := ExecOne(t, p, tape, tier)
